@@ -164,7 +164,7 @@ def judge(chk, c, obs, dropped):
 
 def main(tier, seed, scale=1.0):
     chk = Check(PROP, tier, seed)
-    n = int((320 if tier == "quick" else 30000) * scale)
+    n = int((640 if tier == "quick" else 30000) * scale)
     cap = 20 if tier == "quick" else 36
     chk.rule = ("random struct/enum definitions with PartialOrd, Ord or both educed; ignore/method/rank attributes "
                 "(negative, huge, string and parenthesised ranks) carried by Ord(..) or PartialOrd(..); NaN-like "
